@@ -104,6 +104,21 @@ def setup_worker():
 # ------------------------------------------------------------------------------------------------
 
 
+class _PathLike:
+    """A minimal os.PathLike (as os.DirEntry or py.path.local are)."""
+
+    def __init__(self, path):
+        self._p = path
+
+    def __fspath__(self):
+        return self._p
+
+    def __str__(self):
+        return self._p
+
+    __repr__ = __str__
+
+
 def selectable(name, api, fmt):
     from iodata.api import FORMAT_MODULES
 
@@ -189,11 +204,20 @@ def run_load(name, fmt, api, data, consume=("exhaust", 0), knobs=None, budget=No
         warnings.simplefilter("error" if knobs.get("warnings") == "error" else "always")
         try:
             arg = name
-            if knobs.get("pathlib"):
+            if knobs.get("pathlib") == "pathlike" and selectable(name, api, fmt):
+                # any os.PathLike (os.DirEntry, py.path.local, ...) names a file; used where a format can be selected
+                # (FileFormatError accepts only str and pathlib.Path as file argument on the unchanged tree)
+                arg = _PathLike(name)
+            elif knobs.get("pathlib"):
                 import pathlib
 
                 arg = pathlib.Path(name)  # a legal way to name the file
-            if api == "load_one":
+            if api == "load_one" and knobs.get("in_thread"):
+                from checks.c08 import _in_thread
+
+                rec["frames"] = [_in_thread(lambda: iodata.load_one(arg, fmt=fmt))]
+                rec["finished"] = True
+            elif api == "load_one":
                 rec["frames"] = [iodata.load_one(arg, fmt=fmt)]
                 rec["finished"] = True
             else:
@@ -544,7 +568,7 @@ def gen_trace(rng, tier):
              "knobs": {"chunk_size": rng.choice([None, None, 16, 512]),
                        "encoding": rng.choice(["utf-8"] * 6 + ["ascii", "latin-1"]),
                        "warnings": "error" if rng.random() < 0.12 else "always",
-                       "pathlib": rng.random() < 0.1}}
+                       "pathlib": rng.choice([False] * 8 + [True, "pathlike"]), "in_thread": rng.random() < 0.08}}
     if fmt is not None and not selectable(name, api, fmt):
         trace["api"] = api  # kept: FileFormatError expected
     return trace
